@@ -7,7 +7,7 @@ From Coq Require Import Sorted.
 (* C02's model (read-only; used by C01_mode_dot_is_fold_matmul_unfold only) is imported FIRST so that C01's own names win *)
 From TLV Require Import Model.Tenalg.
 From TLV Require Import Base.Shape Base.PyList Base.Tensor Model.Base Model.BaseExt Model.BasePy Model.BasePyCore
-  Proofs.BaseProofs Proofs.BaseProofs2 Proofs.BaseProofs3 Proofs.BaseProofs4 Proofs.BaseProofs5 Proofs.BaseProofs6 Proofs.BaseProofs7 Proofs.BaseProofs8 Proofs.BaseProofs9 Proofs.BaseProofs10 Proofs.BaseProofs11 Proofs.BaseProofs12 Proofs.BaseProofs13 Proofs.BaseProofs14 Proofs.BaseProofs15 Proofs.BaseProofs16 Proofs.BaseProofs17 Proofs.BaseProofs18 Proofs.BaseProofs19 Proofs.BaseProofs20
+  Proofs.BaseProofs Proofs.BaseProofs2 Proofs.BaseProofs3 Proofs.BaseProofs4 Proofs.BaseProofs5 Proofs.BaseProofs6 Proofs.BaseProofs7 Proofs.BaseProofs8 Proofs.BaseProofs9 Proofs.BaseProofs10 Proofs.BaseProofs11 Proofs.BaseProofs12 Proofs.BaseProofs13 Proofs.BaseProofs14 Proofs.BaseProofs15 Proofs.BaseProofs16 Proofs.BaseProofs17 Proofs.BaseProofs18 Proofs.BaseProofs19 Proofs.BaseProofs20 Proofs.BaseProofs21
   Model.BasePyNp.
 Import ListNotations.
 
@@ -718,3 +718,20 @@ Example C01_slices_nonvacuous :
   py_slice [2; 3; 4; 5]%Z None (Some 2%Z) = [2; 3]%Z /\ py_slice [2; 3; 4; 5]%Z (Some (-1)%Z) None = [5]%Z /\
   py_slice [2; 3; 4; 5]%Z None (Some (-1)%Z) = [2; 3; 4]%Z /\ py_slice [2; 3; 4; 5]%Z (Some 7%Z) None = [].
 Proof. repeat split. Qed.
+
+(* unfold IS the matricization with the single row mode m and the default (ascending) columns - for every tensor whose mode m
+   exists and is non-empty (an empty mode is where they differ: NumPy's reshape(-1) makes unfold reject, matricize never
+   uses -1); at statement level on the NumPy backend also with the bare int the source accepts *)
+Theorem C01_unfold_is_matricize : forall (A : Type) (d : A) (t : tensor A) (m : nat),
+  m < ndim t -> nth m (shape t) 0 <> 0 ->
+  unfold d t m = matricize d t [m] None /\
+  g_unfold (plain d) t (Z.of_nat m) = g_matricize (plain d) t (PInt (Z.of_nat m)) None /\
+  g_unfold (plain d) t (Z.of_nat m) = g_matricize (plain d) t (PSeq [Z.of_nat m]) None.
+Proof. intros A d t m Hm Hn. exact (conj (unfold_is_matricize d t m Hm Hn) (g_unfold_is_g_matricize d t m Hm Hn)). Qed.
+Print Assumptions C01_unfold_is_matricize.
+
+Example C01_unfold_is_matricize_nonvacuous :
+  let t := mk [2; 3; 2] (seq 0 12) in
+  1 < ndim t /\ nth 1 (shape t) 0 <> 0 /\ unfold 0 t 1 = Ok (mk [3; 4] [0; 1; 6; 7; 2; 3; 8; 9; 4; 5; 10; 11]) /\
+  unfold 0 (mk [0; 3] []) 0 = Err /\ matricize 0 (mk [0; 3] []) [0] None = Ok (mk [0; 3] []).
+Proof. cbv zeta. split; [cbn; repeat constructor|]. split; [cbn; discriminate|]. repeat split; vm_compute; reflexivity. Qed.
